@@ -36,5 +36,6 @@ pub fn contact_support_map_halfspace<G: ?Sized + SupportMap>(
     halfspace: &HalfSpace,
     prediction: Real,
 ) -> Option<Contact> {
-    contact_halfspace_support_map(pos12, halfspace, other, prediction).map(|c| c.flipped())
+    contact_halfspace_support_map(&pos12.inverse(), halfspace, other, prediction)
+        .map(|c| c.flipped())
 }
